@@ -29,7 +29,23 @@ for j in $(seq 1 "$JOBS"); do
 done
 for p in "${pids[@]}"; do wait "$p"; done
 execs=$(grep -h "^Done" "$WORK"/log*.txt | awk '{s+=$2} END {print s+0}')
-echo "fuzz campaign $T: $JOBS jobs x ${SECS}s, $execs executions"
+cov=$(grep -h "cov: " "$WORK"/log*.txt | sed 's/.*cov: \([0-9]*\).*/\1/' | sort -n | tail -1)
+corp=$(ls "$WORK"/c1 2>/dev/null | wc -l)
+echo "fuzz campaign $T: $JOBS jobs x ${SECS}s, $execs executions, max edge coverage ${cov:-0}, corpus of job 1: $corp files"
+# record the campaign in the evidence file of the property it serves (written just before by `check`)
+EV_ID="$T"; [ "$T" = parse_all ] && EV_ID="${FUZZ_EVIDENCE_ID:-C11}"; [ "$T" = decode_script ] && EV_ID="${FUZZ_EVIDENCE_ID:-C04}"
+EV="${MVH_VERIF_DIR:-/verif}/evidence/$EV_ID.json"
+if [ -f "$EV" ]; then
+python3 - "$EV" "$T" "$JOBS" "$SECS" "$execs" "${cov:-0}" "$corp" <<'PY'
+import json,sys
+ev,t,jobs,secs,execs,cov,corp=sys.argv[1:]
+d=json.load(open(ev))
+c=d.setdefault('coverage',{})
+f=c.setdefault('fuzz_campaigns',[])
+f.append({"target":t,"engine":"libFuzzer (cargo-fuzz, coverage-guided over the check's choice stream)" if t.startswith('C') else "libFuzzer (raw input)","jobs":int(jobs),"seconds_per_job":int(secs),"executions":int(execs),"max_edge_coverage":int(cov),"corpus_files_job1":int(corp)})
+json.dump(d,open(ev,'w'),indent=1)
+PY
+fi
 rc=0
 for a in "$WORK"/artifacts/*; do
   [ -e "$a" ] || continue
